@@ -55,6 +55,7 @@ class LPDB:
     def new_self(self, it, opt_type):
         it.classes = self.classes
         it.path_alias = {("consts", "NMONTHS"): Rat.atom(NSYM)}
+        it.path_keys = {("consts",): self._const_keys()}
         obj = Obj(self.cls, {}, "self")
         init = self.index.func(OPT, "Optimizer.__init__")
         from .core import bind_named
@@ -106,6 +107,19 @@ class LPDB:
                 self.single_vars[k] = v
             else:
                 raise AnalysisError(f"initial_variables[{k!r}] is neither a month list nor an LpVariable")
+
+    def _const_keys(self):
+        """the keys the parameter code stores into the constants table it hands to the optimiser (`constants_out["K"] = ...` anywhere in
+        parameters.py, also under other names of that table)"""
+        if getattr(self, "_ck", None) is None:
+            ks = set()
+            mod = self.index.module("src/optimizer/parameters.py")
+            for n_ in ast.walk(mod):
+                if isinstance(n_, ast.Subscript) and isinstance(n_.ctx, ast.Store) and isinstance(n_.slice, ast.Constant) and isinstance(n_.slice.value, str) \
+                        and isinstance(n_.value, ast.Name) and "constants" in n_.value.id.lower():
+                    ks.add(n_.slice.value)
+            self._ck = ks
+        return self._ck
 
     def make_vars(self, obj):
         db = self
